@@ -101,7 +101,7 @@ static int agrees(void)
 	uint16_t exp[64]; int n, rc, i;
 	rc = ref_decode(c_ma, c_len, exp, &n);
 	if (rc < 0) return o_rc < 0;
-	if (o_rc != 0 || o_n != n || n > 64) return 0;
+	if (o_rc < 0 || o_n != n || n > 64) return 0;	/* success = not an error: the statement is silent about the value (both callers ignore it) */
 	for (i = 0; i < n; i++) if (o_hop[i] != exp[i]) return 0;
 	return 1;
 }
@@ -368,10 +368,11 @@ def run(budget_s=20.0, seed=0):
                 if not (isinstance(got.get("rc"), int) and got["rc"] < 0):
                     S.fail("bitmap longer than 8 octets is not rejected", describe(*case), {"rc": got.get("rc")}, {"rc": "negative (error)"})
                 return
-            obs = {"rc": got.get("rc"), "hopp_len": got.get("n"), "hopping": obs_hop}
-            exp = {"rc": 0, "hopp_len": len(hop), "hopping": hop}
+            rc_ok = isinstance(got.get("rc"), int) and got["rc"] >= 0       # any non-negative value is a success (the callers ignore the value)
+            obs = {"rc": "success" if rc_ok else got.get("rc"), "hopp_len": got.get("n"), "hopping": obs_hop}
+            exp = {"rc": "success", "hopp_len": len(hop), "hopping": hop}
             if obs != exp:
-                what = ("return code" if obs["rc"] != 0 else "hopp_len" if obs["hopp_len"] != len(hop) else "hopping list")
+                what = ("return code" if not rc_ok else "hopp_len" if obs["hopp_len"] != len(hop) else "hopping list")
                 S.fail("decoded hopping list differs from the flagged cell-allocation channels (%s)" % what, describe(*case), obs, exp)
 
         def ask(cases):
